@@ -46,7 +46,8 @@ func suiteC15(r *Run) {
 	r.Rule = "random histories of register/query/iterate/info operations over synthetic service descriptors (0..4 unary and 0..4 streaming methods, random flags, metadata), including duplicate and ill-typed registrations, on HandlerMap, inprocgrpc.Channel and httpgrpc.Server; parity with grpc.Server.GetServiceInfo on the valid sub-history. Non-trivial: history contains a duplicate or ill-typed registration or >= 2 services; distinct by (carrier, history)."
 	r.Assumptions = append(r.Assumptions, "reflect.Type.Implements (external typeOK)", "grpc.Server.GetServiceInfo as the reference")
 	rng := r.Rng
-	names := []string{"a.A", "a.B", "b.A", "x", "a.AA"}
+	// names are byte strings: near misses of a registered name (a leading or trailing slash, other letter case) are other names
+	names := []string{"a.A", "a.B", "b.A", "x", "a.AA", "/a.A", "a.A/", "A.A", "a.a", "/x"}
 
 	mkDesc := func(id int, name string) *grpc.ServiceDesc {
 		d := &grpc.ServiceDesc{ServiceName: name, HandlerType: (*synthHandler)(nil), Metadata: fmt.Sprintf("file%d.proto", id)}
